@@ -169,6 +169,31 @@ def gen(rng, tier):
                     c = lf.Case(lg.render(), st, [(algo, "0", i, {}) for i in inputs], gram=None, tag="lex")
                     c.lexgram = lg
                     cases.append(c)
+    # long string recognizers (banners, heredoc markers): the length must never weigh against a priority, whatever its
+    # size (100, 256, 1000, 65536 are the places where a packed sort key or a narrow integer would break)
+    lens = [99, 100, 101, 120, 255, 256, 257, 499, 500, 999, 1000, 1001, 1500, 4300] + ([65535, 65536, 70001] if tier != "quick" else [])
+    for it in range(14 if tier == "quick" else 120):
+        ch = rng.choice("a-")
+        cls = "a+" if ch == "a" else "-+"
+        ls = sorted(rng.sample(lens, rng.randint(1, 3)))
+        prios = rng.sample([None, 9, 11, 12, 5, 15], 3)
+        terms = [(f"L{k}", "S", ch * l, rng.choice(prios)) for k, l in enumerate(ls)]
+        terms.append(("R0", "R", cls, rng.choice(prios)))
+        if rng.random() < 0.5:
+            terms.append(("R1", "R", cls + "b?", rng.choice(prios)))
+        rng.shuffle(terms)
+        lg = LexGram(terms)
+        inputs = set()
+        for l in ls:
+            inputs |= {ch * l, ch * (l - 1), ch * (l + 1), ch * l + "b", ch * l + " " + ch * 2, ch * 3 + " " + ch * l}
+        inputs = sorted(inputs)
+        for algo, tt in (("LR", "LALR_PAGER"), ("GLR", "LALR_RN")):
+            for ms, lm in itertools.product("01", repeat=2):
+                for go in (["-"] if algo == "LR" else ["0", "1"]):
+                    st = [algo, tt, "-", "-", ms, lm, go, "-", "-", "-"]
+                    c = lf.Case(lg.render(), st, [(algo, "0", i, {}) for i in inputs], gram=None, tag="lex-long")
+                    c.lexgram = lg
+                    cases.append(c)
     return cases
 
 
@@ -193,7 +218,8 @@ def check(rep, lr, glr, proofs_ok):
     rep.cov["rule"] = ("grammar `S: S X | X; X: T1|..|Tn` over 2-5 (family wide: 22-44, same regex under several names) overlapping string/regex terminals with priorities in 1-3 groups, so "
                        "that every terminal is expected in every state; all combinations of most_specific x longest_match (x "
                        "grammar_order for GLR) x {LR, GLR}; inputs: all strings up to length 3 over {a,b,i,x} + concatenations of "
-                       "recognizer-shaped pieces; LR: the token sequence of the tree = the sequence the documented rule selects; GLR: "
+                       "recognizer-shaped pieces; family long: string recognizers of 99..4300 (thorough: ..70001) bytes against regexes "
+                       "of neighbouring priorities; LR: the token sequence of the tree = the sequence the documented rule selects; GLR: "
                        "set of token sequences over all trees = all tokenizations the documented rule allows; distinct = (terminal "
                        "set, settings, input)")
 
